@@ -2964,3 +2964,70 @@ impl Parser {
         self.state.bias_cache = None;
     }
 }
+
+/// Verification hook (feature `llg_verif`): read-only snapshot of the parser's bookkeeping.
+#[cfg(feature = "llg_verif")]
+#[derive(Debug, Clone, PartialEq, Eq)]
+pub struct VerifState {
+    /// lexer stack as (row index, lexer state id, byte)
+    pub lexer_stack: Vec<(u32, u32, Option<u8>)>,
+    pub num_rows: usize,
+    pub rows_len: usize,
+    pub rows_valid_end: usize,
+    /// items of rows 0..num_rows as sorted (rhs pointer, start position)
+    pub rows: Vec<Vec<(u32, u32)>>,
+    /// lexer start state id of rows 0..num_rows
+    pub row_start_states: Vec<u32>,
+    pub bytes: Vec<u8>,
+    pub byte_to_token_len: usize,
+    pub row_infos_len: usize,
+    pub definitive: bool,
+    pub has_pending_lexeme_bytes: bool,
+    /// key of the mask cache, if an entry is stored: (lexer state id, row index, has pending)
+    pub cache_key: Option<(u32, u32, bool)>,
+    pub lexer_stack_top_eos: bool,
+}
+
+#[cfg(feature = "llg_verif")]
+impl Parser {
+    pub fn verif_state(&self) -> VerifState {
+        let s = &self.state;
+        let num_rows = s.num_rows();
+        let mut rows = vec![];
+        let mut row_start_states = vec![];
+        for r in s.rows.iter().take(num_rows) {
+            let mut items: Vec<(u32, u32)> = r
+                .item_indices()
+                .map(|i| {
+                    let it = s.scratch.items[i];
+                    (it.rhs_ptr().as_index() as u32, it.start_pos() as u32)
+                })
+                .collect();
+            items.sort();
+            rows.push(items);
+            row_start_states.push(r.lexer_start_state.as_u32());
+        }
+        VerifState {
+            lexer_stack: s
+                .lexer_stack
+                .iter()
+                .map(|l| (l.row_idx, l.lexer_state.as_u32(), l.byte))
+                .collect(),
+            num_rows,
+            rows_len: s.rows.len(),
+            rows_valid_end: s.rows_valid_end,
+            rows,
+            row_start_states,
+            bytes: s.bytes.clone(),
+            byte_to_token_len: s.byte_to_token_idx.len(),
+            row_infos_len: s.row_infos.len(),
+            definitive: s.scratch.definitive,
+            has_pending_lexeme_bytes: s.has_pending_lexeme_bytes(),
+            cache_key: s
+                .bias_cache
+                .as_ref()
+                .map(|c| (c.lexer_state.as_u32(), c.row_idx, c.has_pending_lexeme_bytes)),
+            lexer_stack_top_eos: s.lexer_stack_top_eos,
+        }
+    }
+}
